@@ -155,6 +155,10 @@ func confirm(nb *nativeBuild, inst Instance, v interp.Violation) (bool, string) 
 			if r.exit == 3 && strings.Contains(r.out, "VND-ASSERT-FAILED: order") {
 				return true, r.out
 			}
+		case "join":
+			if r.exit == 3 && strings.Contains(r.out, "VND-ASSERT-FAILED: joined") {
+				return true, r.out
+			}
 		}
 	}
 	return false, last.out
@@ -262,7 +266,7 @@ func conclude(prop, tier string, seed int64, fam *Family, results []instResult, 
 		var witness interp.Violation
 		if nb != nil && nb.err == nil && !*flagNoRepl {
 			for _, v := range g.items {
-				if v.Kind == "race" || v.Kind == "join" {
+				if v.Kind == "race" {
 					// schedule findings are confirmed by their own replays (see race.go)
 					ok, o := confirmSchedule(scratch, fam, g.inst, v)
 					if ok {
